@@ -123,6 +123,8 @@ fn render_proj(p: &PProg) -> String {
         7 => lines.join(" ").replace(' ', "\u{b}"),
         8 => lines.join(" ").replace(' ', "\u{a0}"),
         9 => lines.join("\u{2003} "),
+        // comments and lone CR line ends (a comment ends where its line ends)
+        10 => format!("# a PROJ pipeline\r{}\r", lines.join("   # trailing comment\r")),
         _ => format!("# geodesy: a | b\n{}\n", lines.join("   # was: x | y\n")),
     }
 }
@@ -286,7 +288,7 @@ fn enumerate(rep: &Report, kinds: &[usize], len: usize, label: &str, keep: &(dyn
     let step_variants: Vec<PStep> = kinds.iter().flat_map(|&k| (0..6u8).map(move |m| PStep { kind: k, modifier: m })).collect();
     let a = step_variants.len();
     // options: pipeline_inv(2) x globals(5) x plus(3) x layout(5) x explicit(2) x mod_first(2)
-    let opt_radix = [2usize, GLOBALS.len(), 3, 10, 2, 2];
+    let opt_radix = [2usize, GLOBALS.len(), 3, 11, 2, 2];
     let nopt = product(&opt_radix);
     let total = a.pow(len as u32) * nopt;
     let outcomes = Mutex::new(HashSet::new());
@@ -448,7 +450,7 @@ pub fn run(tier: Tier) -> Report {
             enumerate(&rep, &[1, 4], 4, "two^4", &|o: &[usize]| o[3] < 6 && o[2] != 2 && plain_if_omit_global(o));
         }
     }
-    enumerate(&rep, &[0, 1, 4], 2, "three^2 (form feed, vertical tab, no-break space, em space between the tokens; no pipeline-level parameters)", &|o: &[usize]| o[3] >= 6 && o[1] == 0 && o[4] == 0);
+    enumerate(&rep, &[0, 1, 4], 2, "three^2 (form feed, vertical tab, no-break space, em space between the tokens, comments with lone CR line ends; no pipeline-level parameters)", &|o: &[usize]| o[3] >= 6 && o[1] == 0 && o[4] == 0);
     refusals_and_passthrough(&rep);
     leave_private_workdir(&wd);
     rep
